@@ -8,12 +8,12 @@ use std::io::{BufRead, BufReader, Read};
 const ARG_AND_SPACE_PATTERN: &str = r"\s*[_[:alpha:]][_[:alpha:]\d]*\s*";
 
 lazy_static! {
-    static ref ARG_LINE_PATTERN: Regex = Regex::new(r"^\s*arg\([^)]+\).\s*$").unwrap();
+    static ref ARG_LINE_PATTERN: Regex = Regex::new(r"^\s*arg\([^)]+\)\.\s*$").unwrap();
     static ref ARG_LINE_ARG_NAME_PATTERN: Regex =
-        Regex::new(&format!(r"^\s*arg\(({})\).\s*$", ARG_AND_SPACE_PATTERN)).unwrap();
-    static ref ATT_LINE_PATTERN: Regex = Regex::new(r"^\s*att\([^,]+,[^)]+\).\s*$").unwrap();
+        Regex::new(&format!(r"^\s*arg\(({})\)\.\s*$", ARG_AND_SPACE_PATTERN)).unwrap();
+    static ref ATT_LINE_PATTERN: Regex = Regex::new(r"^\s*att\([^,]+,[^)]+\)\.\s*$").unwrap();
     static ref ATT_LINE_ARG_NAMES_PATTERN: Regex = Regex::new(&format!(
-        r"^\s*att\(({}),({})\).\s*$",
+        r"^\s*att\(({}),({})\)\.\s*$",
         ARG_AND_SPACE_PATTERN, ARG_AND_SPACE_PATTERN,
     ))
     .unwrap();
